@@ -8,13 +8,17 @@ CLASSES = [
 
 
 def text(r):
+    from . import dictionary
+    lits = dictionary.literals()
     n = r.choice([1, 2, 3, 5, 8, 13, 30, 80])
     w = [r.random() for _ in CLASSES]
     w[1] += 1.0
     w[0] += 0.5
     out = []
     for _ in range(n):
-        if r.random() < 0.25:
+        if lits and r.random() < 0.06:
+            out.append(r.choice(lits))
+        elif r.random() < 0.25:
             out.append(r.choice(MARKS))
         else:
             cls = r.choices(CLASSES, weights=w)[0]
